@@ -11,3 +11,15 @@ claim("C13",
   "For generated parameter sets (TokensPerBlock 0..1e12, MintDecrease below/at/above blocks-per-year, ratio triples with sum <= 100, three denoms, three stipend accounts) 1-60 consecutive jklmint BeginBlocks run on the real keepers; each block is checked for: no panic, supply delta E >= 0 and <= previous E, exact floor(E*pct/100) credits to fee collector / dev grants / stipend, module remainder (< 3 when ratios sum to 100), no other balance change, MintedBlock(h) == E. Falsification only.",
   "Parameters are written with the keeper's SetParams standing in for a governance change, restricted to values the module's validators accept; ratios sum <= 100 and the stipend address is an ordinary account (as the property quantifier states). Other modules' BeginBlockers are not run in this check.",
   "DESIGN.md section 4 C13")
+
+claim("C08",
+  "model-based stateful property test (rapid state machine) on a fork of the real app: snapshot comparison of all name records and balances around every message against an ownership/consent model",
+  "Generated histories (avg 35 steps) of all rns message types by 4 accounts over 2-4 names, with spelling variants and height jumps around expiries; after each message every strictly-live name must keep owner/data/records unless the message is a transfer/accept-bid signed by the owner or a buy through a listing the current owner created, and the previous owner must receive exactly the listed price / bid amount. Falsification only; the list->transfer->buy defect found this way is fixed in /repo (ea6085bc) and kept as a plain regression replay.",
+  "Messages are executed with runMsgs semantics without the ante handler; the model of who created a listing is maintained from observed successful List messages; nothing is asserted for a name at height == Expires.",
+  "DESIGN.md section 4 C08")
+
+claim("C09",
+  "model-based stateful property test (rapid state machine): conservation invariant (module balance == sum of open bids) after every step plus per-slot escrow model",
+  "Same generator as C08 with bid/cancel/accept weighted up, two denominations, zero-amount bids, bids on unregistered names; invariant after every message: rns module account (all denoms) equals the sum of open bids read from the store; cancel returns exactly the slot's outstanding escrow, accept pays the owner exactly that and removes the bid, other messages leave the module balance unchanged. The rebid-without-refund defect found this way is fixed in /repo (b47bad51).",
+  "Outstanding escrow per (bidder,name) is tracked from observed balance changes; fork mode without ante handler.",
+  "DESIGN.md section 4 C09")
